@@ -817,13 +817,46 @@ func e7Recursion(c *Ctx, rule string, funcs []*ssa.Function) {
 		var names []string
 		okAll := true
 		why := ""
+		inComp := map[*ssa.Function]bool{}
+		for _, f := range comp {
+			inComp[f] = true
+		}
+		okF := map[*ssa.Function]bool{}
 		for _, f := range comp {
 			names = append(names, shortName(f))
-			ok, w := allowed(f)
-			if !ok {
-				okAll = false
-			} else {
+			if ok, w := allowed(f); ok {
+				okF[f] = true
 				why = w
+			}
+		}
+		// an unexported helper split off a member (every caller inside the analysed closure is an accepted
+		// member of this cycle) descends through the same structure as that member
+		for changed := true; changed; {
+			changed = false
+			for _, f := range comp {
+				if okF[f] || token.IsExported(f.Name()) {
+					continue
+				}
+				callers, allOK := 0, true
+				for g, ss := range succ {
+					for _, h := range ss {
+						if h == f {
+							callers++
+							if !(inComp[g] && okF[g]) {
+								allOK = false
+							}
+						}
+					}
+				}
+				if callers > 0 && allOK {
+					okF[f] = true
+					changed = true
+				}
+			}
+		}
+		for _, f := range comp {
+			if !okF[f] {
+				okAll = false
 			}
 		}
 		key := "recursion cycle {" + strings.Join(names, ", ") + "}"
